@@ -28,8 +28,9 @@ CFG = {
         "discarded because uniseg is not position independent there)",
         "C14's model of the drawing code (Model.Layout.drawText on Model.Surface, tied by C14's extractor and correspondence) is imported; "
         "its ellipsis condition and NewSurface arguments are read from the source (Gen.SurfaceFacts.EllAtom / SzArg) and pinned by facts_hard_mode / facts_size_ok",
-        "Model.WrapHeap (heap-level transcription of richtext.SoftwrapScanner.Scan over Go slices) is tied to the value-level model by execution on every "
-        "R case of at most 12 cells (same lines, caller's array unchanged), not by a theorem; Go's append growth policy is a parameter (any function)",
+        "Model.WrapHeap (heap-level transcription of richtext.SoftwrapScanner.Scan / HardwrapScanner.Scan over Go slices) is a hand transcription (no extractor): tied "
+        "to richtext.go by the facts_* pins of the statements it rests on and to the value-level model by theorem (rich_scanner_on_the_heap, hard_scan_refines); "
+        "Go's append growth policy is a parameter (any function)",
     ],
     "assumptions": [
         "OracleOK / OracleTermW / PosIndep for uniseg.FirstLineSegment (proved for the transcribed richtext.firstLineSegment, checked at run time for text)",
@@ -52,7 +53,9 @@ CFG = {
                   "COMPOSED: rich_wrap_property (the whole property for richtext in one statement, no oracle hypothesis), plain_wrap_property; "
                   "plain_no_needless_split_needs_pos_indep (an explicit OracleOK segmenter shows PosIndep cannot be dropped). ALIASING: Props.C16Heap over the heap-level model "
                   "Model.WrapHeap (Go slices, append in place) - a Scan writes only into arrays it allocates: caller's cells and spare capacity untouched, returned lines stay valid; the same for HardwrapScanner plus hard_scan_refines (the heap-level Scan returns exactly the "
-                  "value-level model's line and remaining cells, every heap, every growth policy). GEN: 19 facts_* theorems over the "
+                  "value-level model's line and remaining cells, every heap, every growth policy); rich_scanner_on_the_heap - REFINEMENT proved for the soft-wrap scanner: the whole "
+                  "iteration on the heap, with a caller that keeps the returned slices uncopied, yields exactly Model.Wrap.richLines (scan_loop_refines: all four exits of the loop, "
+                  "long_word_loop_refines: the long-word loop with its two fresh slices), so the heap-free model is sound for the slice-level code. GEN: 19 facts_* theorems over the "
                   "extracted guards of both Scan functions, firstLineSegment, HardwrapScanner and the Draw loops - scanners_agree (text = rich), "
                   "operators proved to be the model's tests for all inputs, int sums (F45), state reset (F116). Real violations found and fixed "
                   "in /repo: F44, F45 (round 1), F116 (stale uniseg state after a long-word split: terminator inside a line, needless split), "
@@ -60,7 +63,7 @@ CFG = {
                   "fits exactly; fixed in both packages, Witness.F316 shows the pre-fix conjuncts fail) and F616 (Text.Draw without soft wrap used bufio.Scanner: a line over "
                   "64 KiB silently ended the drawing, a lone CR did not end the line; found by the DT stream).",
     "level_note": "Validated by correspondence only: that the real uniseg meets OracleOK / OracleTermW / PosIndep on the generated texts (asserted per "
-                  "query); that Model.WrapHeap returns the lines of Model.Wrap (executed on every small R case). Modelled, not verified: tab inside an unbreakable word "
+                  "query); that Model.WrapHeap transcribes richtext.go (it is proved equal to Model.Wrap, which the correspondence run ties to the code). Modelled, not verified: tab inside an unbreakable word "
                   "(long-word split rewrites the tab as 8 spaces), hard-wrap lines of 2^16 columns or more (uint16 column counter), texts where uniseg is not "
                   "position independent (LB14 / LB25 contexts; discarded and counted). The DW witness compares the real surface with the proved "
                   "row specification instead of executing the List-based model on 65535 rows.",
